@@ -57,6 +57,13 @@ fn alphabet(tier: Tier) -> Vec<Op> {
         ),
         // failing runs: prefix (completed effects) then the failure
         s("throw-after-export", "export p = 1\nthrow 'x'\n", "export p = 1\n"),
+        // a generator instance kept in the exports; an error escaping from it ends the run and the generator
+        s(
+            "export-generator-instance",
+            "ggf = ||\n  yield 1\n  throw 'in kept generator'\n  yield 3\nexport gi = ggf()\n",
+            "ggf = ||\n  yield 1\n  throw 'in kept generator'\n  yield 3\nexport gi = ggf()\n",
+        ),
+        s("advance-kept-generator-until-it-fails", "gi.next()\ngi.next()\n", "try\n  gtest = gi\n  gq = || yield 1\n  gx = gq()\n  gx.consume()\n  export gi = gx\ncatch e\n  0\n"),
         s(
             "runtime-error-depth-3",
             "export q = 2\nd1 = || 1 + 'a'\nd2 = || d1()\nd3 = || [0, d2()]\nz = d3()\n",
@@ -104,11 +111,15 @@ fn alphabet(tier: Tier) -> Vec<Op> {
         ("import-main-fails", "import mod_main_fails\nexport got_mf = 1\n"),
         ("import-top-fails", "from mod_top_fails import z\nexport got_tf = z\n"),
         ("import-cycle", "import mod_cycle_a\nexport got_cy = 1\n"),
+        ("import-main-not-callable", "export before_mnc = 1\nimport mod_main_not_callable\nexport got_mnc = 1\n"),
+        ("import-test-fails", "export before_tf = 1\nimport mod_test_fails\nexport got_tfm = 1\n"),
         ("import-ok-after-failing", "try\n  import mod_top_fails\ncatch e\n  ie = 1\nimport mod_ok\nexport got_ok2 = mod_ok.x\n"),
     ] {
         let reference: &'static str = match name {
             "import-ok" => "import mod_ok\nexport got_ok = mod_ok.x\n",
             "import-ok-after-failing" => "import mod_ok\nexport got_ok2 = mod_ok.x\n",
+            "import-main-not-callable" => "export before_mnc = 1\n",
+            "import-test-fails" => "export before_tf = 1\n",
             _ => "",
         };
         v.push(Op::Script { name, src, reference, repl: false, timeout: false });
@@ -150,6 +161,8 @@ fn prepare_modules() {
         ("mod_ok.koto", "export x = 1\n"),
         ("mod_main_fails.koto", "export y = 2\nexport @main = || throw 'main failed'\n"),
         ("mod_top_fails.koto", "export z = 3\nthrow 'top failed'\n"),
+        ("mod_main_not_callable.koto", "export y2 = 2\nexport @main = 42\n"),
+        ("mod_test_fails.koto", "export y3 = 3\nexport @test broken = || assert false\n"),
         ("mod_cycle_a.koto", "import mod_cycle_b\nexport a = 1\n"),
         ("mod_cycle_b.koto", "import mod_cycle_a\nexport b = 1\n"),
     ];
@@ -291,10 +304,12 @@ fn probe(inst: &mut Instance) -> String {
     out.push_str(&format!(" | P5 {:?} {:?}", o.stdout, o.outcome.class()));
     // every module is imported again: failed imports must fail again, completed ones are cached
     let o = inst.run_with(
-        "try\n  import mod_ok\n  print 'ok {mod_ok.x}'\ncatch e\n  print 'mod_ok failed'\ntry\n  import mod_main_fails\n  print 'mf imported'\ncatch e\n  print 'mf failed'\ntry\n  import mod_top_fails\n  print 'tf imported'\ncatch e\n  print 'tf failed'\ntry\n  import mod_cycle_a\n  print 'cycle imported'\ncatch e\n  print 'cycle failed'\n",
+        "try\n  import mod_ok\n  print 'ok {mod_ok.x}'\ncatch e\n  print 'mod_ok failed'\ntry\n  import mod_main_fails\n  print 'mf imported'\ncatch e\n  print 'mf failed'\ntry\n  import mod_top_fails\n  print 'tf imported'\ncatch e\n  print 'tf failed'\ntry\n  import mod_cycle_a\n  print 'cycle imported'\ncatch e\n  print 'cycle failed'\ntry\n  import mod_main_not_callable\n  print 'mnc imported'\ncatch e\n  print 'mnc failed'\ntry\n  import mod_test_fails\n  print 'tfm imported'\ncatch e\n  print 'tfm failed'\n",
         &cfg,
     );
     out.push_str(&format!(" | P6 {:?} {:?}", o.stdout, o.outcome.class()));
+    let o = inst.run_with("try\n  print 'gi {gi.next()} {gi.next()}'\ncatch e\n  print 'gi failed or missing'\n", &cfg);
+    out.push_str(&format!(" | P7 {:?} {:?}", o.stdout, o.outcome.class()));
     if let Some(st) = &o.state {
         out.push_str(&format!(" | clean-after-probes {}", clean(st)));
     }
